@@ -495,8 +495,12 @@ func (conn *Conn) send(ctx context.Context) {
 				return
 			}
 		case <-ctx.Done():
-			// control channel closed, bail out
+			// control channel closed, trigger Close() to clean things up
+			// properly (runLoop may be stuck behind a handler that is
+			// blocked on the output queue) and bail out
+			// We can't defer this, because Close() waits for it.
 			conn.wg.Done()
+			conn.Close()
 			return
 		}
 	}
